@@ -44,7 +44,8 @@ HookSets == IF Tier = "quick" THEN {<<9, 2, 3, 1>>, <<24, 2, 3, 2>>}
 \* (the big family must reach sizes at which an implementation would switch to parallel reductions:
 \*  a size-gated parallel sum -- threshold 8192 rows -- was missed while this family stopped at 6000)
 BigSets  == IF Tier = "quick" THEN {<<1500, 3, 4, 1>>, <<20000, 2, 3, 2>>}
-            ELSE {<<1500, 3, 4, 1>>, <<6000, 2, 5, 2>>, <<3000, 5, 3, 3>>, <<20000, 2, 3, 2>>, <<12000, 3, 4, 4>>, <<40000, 2, 5, 5>>}
+            ELSE {<<1500, 3, 4, 1>>, <<6000, 2, 5, 2>>, <<3000, 5, 3, 3>>, <<20000, 2, 3, 2>>, <<12000, 3, 4, 4>>}
+\* (40 000 rows: hookbig family only -- k-means fits are cheap, 40 mixture fits per case are not)
 
 \* hooked k-means on data large enough for size-gated code paths: the hook logs these loops coarsely
 \* (no row events) but reports every reduction and the value it produced
